@@ -356,6 +356,7 @@ type fakeMgr struct {
 	r   *run
 	idx int
 	tx  walletdb.ReadWriteTx
+	h   *harness
 }
 
 func (m *fakeMgr) Name() string { return fmt.Sprintf("fake manager m%d", m.idx) }
@@ -394,6 +395,7 @@ func (m *fakeMgr) SetVersion(ns walletdb.ReadWriteBucket, v uint32) error {
 func (m *fakeMgr) build() []migration.Version {
 	spec := m.r.c.Mgrs[m.idx]
 	out := make([]migration.Version, len(spec.Versions))
+	h, idx := m.h, m.idx
 	for i, v := range spec.Versions {
 		out[i].Number = v.Number
 		if v.Nil {
@@ -401,6 +403,10 @@ func (m *fakeMgr) build() []migration.Version {
 		}
 		n := v.Number
 		out[i].Migration = func(ns walletdb.ReadWriteBucket) error {
+			// the table may outlive the run it was built in (real managers keep one
+			// package-level table for the life of the process): resolve the run now
+			r := h.cur
+			m := &fakeMgr{r: r, idx: idx, h: h}
 			obs, err := readVer(ns)
 			m.r.trace = append(m.r.trace, traceEnt{Mgr: m.idx, Number: n, Observed: obs, ObsOK: err == nil})
 			failing := m.r.f.Kind == fMigration && m.r.f.Mgr == m.idx && m.r.f.Number == n
@@ -421,10 +427,13 @@ func (m *fakeMgr) build() []migration.Version {
 
 func (m *fakeMgr) Versions() []migration.Version {
 	if m.r.c.Mgrs[m.idx].SameSlice {
-		if m.r.tables[m.idx] == nil {
-			m.r.tables[m.idx] = m.build()
+		// one table for the whole case: every Upgrade call of the case (fault-free,
+		// second, faulted, retries) goes through the same slice, as with the real
+		// managers' package-level tables
+		if m.h.tables[m.idx] == nil {
+			m.h.tables[m.idx] = m.build()
 		}
-		return m.r.tables[m.idx]
+		return m.h.tables[m.idx]
 	}
 	return m.build()
 }
@@ -433,11 +442,13 @@ func (m *fakeMgr) Versions() []migration.Version {
 // harness
 
 type harness struct {
-	dir  string
-	db   walletdb.DB
-	c    *caseSpec
-	ec   *evid.Case
-	viol string
+	dir    string
+	db     walletdb.DB
+	c      *caseSpec
+	ec     *evid.Case
+	viol   string
+	cur    *run
+	tables [][]migration.Version // per manager, for SameSlice: lives as long as the case
 }
 
 func (h *harness) failf(format string, a ...interface{}) {
@@ -518,13 +529,17 @@ type result struct {
 // upgrade runs migration.Upgrade for all managers inside one walletdb.Update.
 func (h *harness) upgrade(f fault) result {
 	r := &run{c: h.c, f: f, tables: make([][]migration.Version, len(h.c.Mgrs))}
+	h.cur = r
+	if h.tables == nil {
+		h.tables = make([][]migration.Version, len(h.c.Mgrs))
+	}
 	var res result
 	res.err = walletdb.Update(h.db, func(tx walletdb.ReadWriteTx) error {
 		// (a managed function may in principle be re-run: start clean)
 		r.trace, r.setCalls = nil, nil
 		mgrs := make([]migration.Manager, len(h.c.Mgrs))
 		for i := range h.c.Mgrs {
-			mgrs[i] = &fakeMgr{r: r, idx: i, tx: tx}
+			mgrs[i] = &fakeMgr{r: r, idx: i, tx: tx, h: h}
 		}
 		uerr := migration.Upgrade(mgrs...)
 		res.inTxVer = make([]uint32, len(mgrs))
